@@ -10,13 +10,12 @@ state is written by `getPendingAffinity` / `confirmAffinity` /
 the ownership record that allocation checks.
 
 What is TRUE of the current code and proved here:
-* `owner_record_single_valued`: a block's recorded affinity never changes from one
-  host to another; it only goes host → none (release) or the block is deleted.
-* `release_requires_empty`: the delete issued by `releaseBlockAffinity` removes a
-  block only if the stored value it replaces holds no live allocation.
-* `pending_not_ownership`: an allocation made with the affinity check is only ever
-  written into a block whose stored value records the allocating host — the state
-  of BlockAffinity objects (pending or otherwise) is irrelevant.
+* `one_owner_record_partial` (over ALL runs): a block's recorded affinity never changes
+  from one host to another; it only goes host → none (release) or the block is deleted.
+* `release_requires_empty_partial`, `pending_not_ownership_partial`: the guards of the
+  model's transitions unfolded (delete only of a block without live allocation; an
+  affinity-checked allocation only into a block recording the allocating host); their
+  content is the correspondence run, which checks every real write against these guards.
 
 What is FALSE of the current code (witness traces below, reproduced on the real
 client by the harness, corpus/C22/two-confirmed.ops, no fault injected):
@@ -140,7 +139,7 @@ theorem owner_applyWrite {s s' : St} {c : Call}
 /-- The ownership record of a block is single valued and never handed from one host
 to another: across ANY step of ANY execution a stored block's affinity stays the
 same or becomes none (ownership can only be taken by creating an absent block). -/
-theorem owner_record_single_valued (s s' : St) (e : Ev) (h : step s e = some s')
+theorem owner_record_step (s s' : St) (e : Ev) (h : step s e = some s')
     (b r r' : Nat) (v v' : Blk) (hb : s.blk b = some (r, v)) (hb' : s'.blk b = some (r', v')) :
     v'.aff = v.aff ∨ v'.aff = none := by
   have same : s' = s → v'.aff = v.aff ∨ v'.aff = none := by
@@ -165,16 +164,15 @@ theorem owner_record_single_valued (s s' : St) (e : Ev) (h : step s e = some s')
           intro hv; rw [hv] at ho; exact casOutcome_create_ok ho
         · cases h
       · injection h with h; exact same h.symm
-    · split at h
-      · injection h with h; subst h
-        rw [hb] at hb'; injection hb' with hb'; injection hb' with _ e; subst e; exact Or.inl rfl
-      · injection h with h; exact same h.symm
     · injection h with h; exact same h.symm
 
-/-- `releaseBlockAffinity`'s delete (no release in the same write) removes a block only
+/-- (`_partial`: this is the admissibility guard of the model's block-delete transition
+unfolded; its content lies in the correspondence run, which checks that every delete the
+REAL releaseBlockAffinity issues is an instance of that transition.)
+`releaseBlockAffinity`'s delete (no release in the same write) removes a block only
 if the stored value it replaces — the compare-and-swap guarantees it is the value
 the emptiness check was made on — holds no live allocation. -/
-theorem release_requires_empty (s s' : St) (c : Call) (hw : applyWrite s c = some s')
+theorem release_requires_empty_partial (s s' : St) (c : Call) (hw : applyWrite s c = some s')
     (b : Nat) (g1 g2 : List Nat) (hk : c.key = Key.blk b) (hv : c.verb = Verb.delete)
     (hp : c.pl = Payload.blkDelete g1 none g2) (r : Nat) (v : Blk) (hb : s.blk b = some (r, v)) :
     ∀ (o h : Nat), v.slots[o]? ≠ some (Slot.live h) := by
@@ -196,23 +194,56 @@ theorem release_requires_empty (s s' : St) (c : Call) (hw : applyWrite s c = som
     · cases hw
   · cases hw
 
-/-- Pending is not ownership: every allocation made with the affinity check by host `x`
+/-- (`_partial`: the `ownOk` guard of `Cas.step` unfolded; content = the correspondence run
+checks that every affinity-checked allocation of the REAL client passes that guard.)
+Pending is not ownership: every allocation made with the affinity check by host `x`
 is a compare-and-swap against a stored block value that records `x` as its affinity. -/
-theorem pending_not_ownership (s s' : St) (c : Call) (x b : Nat)
+theorem pending_not_ownership_partial (s s' : St) (c : Call) (x b : Nat)
     (h : step s (.call c) = some s') (hown : c.own = some x) (hk : c.key = Key.blk b)
     (hw : c.verb.isWrite = true)
     (hok : casOutcome (s.curRev c.key) c.verb c.rev c.fault = Outcome.ok) :
-    ∃ r v, s.blk b = some (r, v) ∧ v.aff = some x := by
-  simp only [step, hok, hw, if_true] at h
-  split at h
-  · rename_i ho
-    unfold ownOk at ho
-    rw [hown, hk] at ho
-    simp only at ho
-    split at ho
-    · rename_i r v hb; exact ⟨r, v, hb, by simpa using ho⟩
-    · cases ho
-  · cases h
+    ∃ r v, s.blk b = some (r, v) ∧ v.aff = some x :=
+  own_guard h hown hk hw hok
+
+/-- Block `b` is absent in some state along the run. -/
+def absentAlong (b : Nat) : St → List Ev → Prop
+  | s, [] => s.blk b = none
+  | s, e :: es => s.blk b = none ∨
+    match step s e with
+    | some s1 => absentAlong b s1 es
+    | none => False
+
+/-- Run-level (ALL event lists = all interleavings / conflicts / crash points): as long as a
+block is never absent in between, its recorded affinity at the end is what it was at the
+start, or none — ownership is never handed from one host to another; a new owner can only
+appear by creating the block after it was deleted.  (`_partial`: this is about the
+ownership RECORD in the block; the statements about BlockAffinity objects are refuted below.) -/
+theorem one_owner_record_partial : ∀ (evs : List Ev) (s s' : St) (b r r' : Nat) (v v' : Blk),
+    run s evs = some s' → s.blk b = some (r, v) → s'.blk b = some (r', v') → ¬ absentAlong b s evs →
+    v'.aff = v.aff ∨ v'.aff = none
+  | [], s, s', b, r, r', v, v', hr, hb, hb', _ => by
+    simp only [run] at hr; injection hr with hr; subst hr
+    rw [hb] at hb'; injection hb' with hb'; injection hb' with _ e; subst e; exact Or.inl rfl
+  | e :: es, s, s', b, r, r', v, v', hr, hb, hb', hna => by
+    simp only [run] at hr
+    split at hr
+    · rename_i s1 h1
+      have hna1 : ¬ absentAlong b s1 es := by
+        intro hc; apply hna; simp only [absentAlong, h1]; exact Or.inr hc
+      cases hb1 : s1.blk b with
+      | none =>
+        exfalso; apply hna1
+        cases es <;> simp only [absentAlong] <;> first | exact hb1 | exact Or.inl hb1
+      | some p =>
+        obtain ⟨r1, v1⟩ := p
+        have st := owner_record_step s s1 e h1 b r r1 v v1 hb hb1
+        have ih := one_owner_record_partial es s1 s' b r1 r' v1 v' hr hb1 hb' hna1
+        rcases ih with ih | ih
+        · rcases st with st | st
+          · left; rw [ih, st]
+          · right; rw [ih, st]
+        · right; exact ih
+    · cases hr
 
 /-! ### The full-strength affinity-object statements are false -/
 
